@@ -42,7 +42,7 @@ def aors_n(op):
     f = '__gmpn_%s_n' % op
     inv = '''(1 <= n && n <= V_n0 && up == V_up0 + (V_n0 - n) && vp == V_vp0 + (V_n0 - n) && rp == V_rp0 + (V_n0 - n)
       && cy <= 1 && (n == V_n0 ==> cy == 0)
-      && (gk >= V_n0 - n ==> (V_up0[gk] == V_u && V_vp0[gk] == V_v))
+      && ((gk >= V_n0 - n && gk < V_n0) ==> (V_up0[gk] == V_u && V_vp0[gk] == V_v))
       && (gk < V_n0 - n ==> (g_ci <= 1 && REL (V_rp0[gk], V_u, V_v, g_ci, (gk == V_n0 - n - 1 ? cy : g_co))))
       && (gk < V_n0 - n - 1 ==> g_co <= 1)
       && ((gk == 0 && gk < V_n0 - n) ==> g_ci == 0))'''.replace('REL', rel)
@@ -51,7 +51,7 @@ def aors_n(op):
         source='mpn/generic/%s_n.c' % op, contracts=['mpn.h'],
         enforce=[f],
         functions={f: dict(
-            entry='mp_size_t V_n0 = n; mp_ptr V_rp0 = rp; mp_srcptr V_up0 = up, V_vp0 = vp; mp_limb_t V_u = up[gk], V_v = vp[gk];',
+            entry='mp_size_t V_n0 = n; mp_ptr V_rp0 = rp; mp_srcptr V_up0 = up, V_vp0 = vp; mp_limb_t V_u = gk < n ? up[gk] : 0, V_v = gk < n ? vp[gk] : 0;',
             loops={0: dict(
                 scalars=['ul', 'vl', 'sl', 'rl', 'cy', 'cy1', 'cy2', 'n', 'g_ci', 'g_co'],
                 havoc_targets=['up', 'vp', 'rp'],
@@ -115,13 +115,13 @@ UNITS.append(dict(
     name='mpn_com_n', props=['C03', 'C10', 'C05', 'C04', 'C15'], source='mpn/generic/com_n.c', contracts=['mpn.h'],
     enforce=['__gmpn_com_n'],
     functions={'__gmpn_com_n': dict(
-        entry='mp_size_t V_n0 = n; mp_ptr V_rp0 = rp; mp_srcptr V_up0 = up; mp_limb_t V_u = up[gk];',
+        entry='mp_size_t V_n0 = n; mp_ptr V_rp0 = rp; mp_srcptr V_up0 = up; mp_limb_t V_u = up[gkc]; long gk = gkc;',
         loops={0: dict(scalars=['ul', 'n'], havoc_targets=['up', 'rp'],
                        havoc='{ long V_d = nondet_long (); __CPROVER_assume (0 <= V_d && V_d < V_n0); up = V_up0 + V_d; rp = V_rp0 + V_d; }',
                        slices=[('V_rp0', 'V_n0 * 8')],
                        inv='''(1 <= n && n <= V_n0 && up == V_up0 + (V_n0 - n) && rp == V_rp0 + (V_n0 - n)
                            && (gk >= V_n0 - n ==> V_up0[gk] == V_u) && (gk < V_n0 - n ==> V_rp0[gk] == ~V_u))''', dec='n')})},
-    harness=mpn_harness('mpn_com_n', '__gmpn_com_n (rp, up, n);', ptrs=('rp', 'up')),
+    harness=mpn_harness('mpn_com_n', 'gkc = nondet_long (); __gmpn_com_n (rp, up, n);', ptrs=('rp', 'up')),
     selftest=[('__gmpn_com_n', r'~ul', 'ul')],
 ))
 
@@ -159,3 +159,149 @@ UNITS.extend(with_overlap(dict(
     harness=mpn_harness('mpn_rshift', 'unsigned cnt; __gmpn_rshift (rp, up, n, cnt);', ptrs=('rp', 'up')),
     selftest=[('__gmpn_rshift', r'low_limb = high_limb >> cnt;\s*for', 'low_limb = high_limb >> tnc; for')],
 ), '__gmpn_rshift', 'rp, up, n, cnt', 'rp', 'up', 'unsigned cnt;'))
+
+# ------------------------------------------------------------------ cmp, zero_p
+UNITS.append(dict(
+    name='mpn_cmp', props=['C03', 'C11', 'C04', 'C15'], source='mpn/generic/cmp.c', contracts=['mpn.h'],
+    enforce=['__gmpn_cmp'],
+    functions={'__gmpn_cmp': dict(
+        loops={0: dict(scalars=['__gmp_i', '__gmp_x', '__gmp_y', '__gmp_result'],
+                       inv='''(0 <= __gmp_i && __gmp_i <= __gmp_size && __gmp_result == 0
+                            && ((__gmp_i <= gj && gj < __gmp_size) ==> __gmp_xp[gj] == __gmp_yp[gj]))''',
+                       dec='__gmp_i', after='g_hd = __gmp_i;')})},
+    harness=mpn_harness('mpn_cmp', 'mp_size_t m = nondet_long (); __CPROVER_assume (0 <= m && m <= n); __gmpn_cmp (xp, yp, m);', ptrs=('xp', 'yp')),
+    selftest=[('__gmpn_cmp', r'__gmp_x > __gmp_y \? 1 : -1', '__gmp_x > __gmp_y ? -1 : 1'),
+              ('__gmpn_cmp', r'--__gmp_i >= 0', '--__gmp_i > 0')],
+))
+UNITS.append(dict(
+    name='mpn_zero_p', props=['C03', 'C04', 'C15'], source='mpn/generic/zero_p.c', contracts=['mpn.h'],
+    enforce=['__gmpn_zero_p'],
+    functions={'__gmpn_zero_p': dict(
+        entry='mp_size_t V_n0 = __gmp_n;',
+        inserts=[(r'return 0;', r'{ g_hd = __gmp_n; \g<0> }')],
+        loops={0: dict(scalars=['__gmp_n', 'g_hd'],
+                       inv='''(1 <= __gmp_n && __gmp_n <= V_n0 && ((__gmp_n <= gj && gj < V_n0) ==> __gmp_p[gj] == 0))''',
+                       dec='__gmp_n')})},
+    harness=mpn_harness('mpn_zero_p', '__gmpn_zero_p (p, n);', ptrs=('p',)),
+    selftest=[('__gmpn_zero_p', r'__gmp_n != 0', '__gmp_n > 1')],
+))
+
+# ------------------------------------------------------------------ add_1 / sub_1 (the inline bodies of mpir.h, forced out of line by mpn/generic/add_1.c)
+def aors_1(op):
+    rel = 'V_ADDREL' if op == 'add' else 'V_SUBREL'
+    f = '__gmpn_%s_1' % op
+    # positions: 0 handled before the loops; propagate loop index __gmp_i (carry-in 1 at every position it visits)
+    # ghost: carry into position k is 1 iff the propagate loop visits k.
+    REL = lambda r, u, v, ci, co: '%s (%s, %s, %s, %s, %s)' % (rel, r, u, v, ci, co)
+    prop_inv = '''(1 <= __gmp_i && __gmp_i <= __gmp_size && __gmp_c == 1
+        && (gk >= __gmp_i ==> __gmp_src[gk] == V_u)
+        && (gk < __gmp_i ==> (g_ci <= 1 && (gk == 0) == (g_ci == 0) && %s && g_co == 1)))''' % REL('__gmp_dst[gk]', 'V_u', '(gk == 0 ? __gmp_n : 0)', 'g_ci', '1')
+    copy_inv = lambda start: '''(%s <= __gmp_j && __gmp_j <= __gmp_size && __gmp_src != __gmp_dst
+        && ((%s <= gk && gk < __gmp_j) ==> __gmp_dst[gk] == V_u) && (gk >= __gmp_j ==> __gmp_src[gk] == V_u)
+        && (gk < %s ==> __gmp_dst[gk] == V_r))''' % (start, start, start)
+    return dict(
+        name='mpn_%s_1' % op, props=['C03', 'C05', 'C04', 'C15'], source='mpn/generic/%s_1.c' % op, contracts=['mpn.h'],
+        enforce=[f],
+        functions={f: dict(
+            entry='mp_limb_t V_u = __gmp_src[gk]; mp_limb_t V_r; g_ci = 0; g_co = 0;',
+            inserts=[
+                # after position 0 has been stored: record its carry-out (the macro's CB test) and remember dst[gk] for gk == 0
+                (r'if \(\(\(__gmp_r\) < \(\(__gmp_n\)\)\)\)' if op == 'add' else r'if \(\(\(__gmp_x\) < \(\(__gmp_n\)\)\)\)',
+                 r'if (gk == 0) g_co = %s; \g<0>' % ('(__gmp_r < __gmp_n)' if op == 'add' else '(__gmp_x < __gmp_n)')),
+                # carry stops at position __gmp_i - 1 (already incremented)
+                (r'if \(!\(\(__gmp_r\) < \(1\)\)\)' if op == 'add' else r'if \(!\(\(__gmp_x\) < \(1\)\)\)',
+                 r'if (__gmp_i - 1 == gk) g_co = %s; \g<0>' % ('(__gmp_r < 1)' if op == 'add' else '(__gmp_x < 1)')),
+                # the carry has died out: every position from __gmp_i on has carry-in = carry-out = 0
+                (r'\(__gmp_c\) = 0; break;', r'if (gk >= __gmp_i) { g_ci = 0; g_co = 0; } \g<0>'),
+            ],
+            loops={
+                0: dict(scalars=['__gmp_i', '__gmp_x', '__gmp_r', '__gmp_c', 'g_ci', 'g_co', 'V_r'],
+                        slices=[('__gmp_dst', '__gmp_size * 8')],
+                        inv=prop_inv, dec='__gmp_size - __gmp_i',
+                        begin='if (__gmp_i == gk) g_ci = 1;',
+                        local_to_body=['__gmp_j', 'V_s1']),
+                1: dict(scalars=['__gmp_j'], slices=[('__gmp_dst', '__gmp_size * 8')],
+                        snap='V_r = __gmp_dst[gk < __gmp_i ? gk : 0]; long V_s1 = __gmp_i;',
+                        inv=copy_inv('V_s1'), dec='__gmp_size - __gmp_j'),
+                2: dict(scalars=['__gmp_j'], slices=[('__gmp_dst', '__gmp_size * 8')],
+                        snap='V_r = __gmp_dst[0];',
+                        inv=copy_inv('1'), dec='__gmp_size - __gmp_j'),
+            })},
+        harness=mpn_harness('mpn_%s_1' % op, 'mp_limb_t v; %s (rp, up, n, v);' % f, ptrs=('rp', 'up')),
+        selftest=[(f, r'__gmp_i < \(__gmp_size\)', '__gmp_i < (__gmp_size) - 1')],
+    )
+UNITS.append(aors_1('add'))
+UNITS.append(aors_1('sub'))
+
+# ------------------------------------------------------------------ mpn_add / mpn_sub (mpir.h __GMPN_AORS, forced out of line by mpn/generic/add.c)
+def aors(op):
+    rel = 'V_ADDREL' if op == 'add' else 'V_SUBREL'
+    f = '__gmpn_' + op
+    W, X, Y, XN, YN, I = '__gmp_wp', '__gmp_xp', '__gmp_yp', '__gmp_xsize', '__gmp_ysize', '__gmp_i'
+    low = '''((gk < YN) ==> (g_ci <= 1 && g_co <= 1 && REL (W[gk], V_x, V_y, g_ci, g_co) && (gk == 0 ==> g_ci == 0) && (gk == YN - 1 ==> g_co == 1)))'''
+    prop_inv = ('''(1 <= YN && YN <= I && I <= XN && ''' + low + '''
+        && ((YN <= gk && gk < I) ==> (g_ci == 1 && REL (W[gk], V_x, 0, 1, 1))) && ((YN <= gk && gk < I - 1) ==> g_co == 1)
+        && ((gk >= I && gk < XN) ==> X[gk] == V_x))''')
+    copy_inv = '''(V_s1 <= __gmp_j && __gmp_j <= XN && W != X
+        && ((V_s1 <= gk && gk < __gmp_j) ==> W[gk] == V_x) && ((gk >= __gmp_j && gk < XN) ==> X[gk] == V_x)
+        && (gk < V_s1 ==> W[gk] == V_r))'''
+    def sub(t):
+        for a, b in (('REL', rel), ('XN', XN), ('YN', YN), ('W', W), ('X', X), ('Y', Y), ('I', I)):
+            t = re.sub(r'\b%s\b' % a, b, t)
+        return t
+    return dict(
+        name='mpn_' + op, props=['C03', 'C05', 'C04', 'C15'], source='mpn/generic/%s.c' % op, contracts=['mpn.h'],
+        enforce=[f], replace=['__gmpn_%s_n' % op],
+        functions={f: dict(
+            entry=sub('mp_limb_t V_x = gk < XN ? X[gk] : 0, V_y = gk < YN ? Y[gk] : 0, V_r = 0; g_ci = 0; g_co = 0;'),
+            inserts=[(r'if \(\(__gmp_wp\) != \(__gmp_xp\)\)', sub(r'if (gk >= I) { g_ci = 0; g_co = 0; } \g<0>'))],
+            loops={
+                0: dict(scalars=[I, '__gmp_x', 'g_ci', 'g_co'], slices=[(W, XN + ' * 8')],
+                        inv=sub(prop_inv), dec=sub('XN - I + 1'),
+                        begin=sub('if (I == gk) g_ci = 1; if (I == gk + 1) g_co = 1;'),
+                        after=sub('if (gk == I - 1) g_co = 0;')),
+                1: dict(scalars=['__gmp_j'], slices=[(W, XN + ' * 8')],
+                        snap=sub('long V_s1 = I; V_r = (gk < I) ? W[gk] : 0;'),
+                        inv=sub(copy_inv), dec=sub('XN - __gmp_j')),
+            })},
+        harness='''void h_mpn_%s (void) {
+  mp_size_t xn = nondet_long (), yn = nondet_long (); __CPROVER_assume (0 <= yn && yn <= xn && xn <= V_NMAX);
+  gk = nondet_long ();
+  mp_limb_t *B_w = malloc (xn * 8), *B_x = malloc (xn * 8), *B_y = malloc (yn * 8);
+  mp_limb_t *wp = B_w, *xp = B_x, *yp = B_y;
+  if (nondet_bool ()) xp = wp;
+  if (nondet_bool ()) yp = wp;
+  if (nondet_bool ()) yp = xp;
+  %s (wp, xp, xn, yp, yn);
+}''' % (op, f),
+        selftest=[(f, r'__gmp_i >= \(__gmp_xsize\)', '__gmp_i > (__gmp_xsize)'),
+                  (f, r'__gmp_x \+ 1' if op == 'add' else r'__gmp_x - 1', '__gmp_x')],
+    )
+import re
+UNITS.append(aors('add'))
+UNITS.append(aors('sub'))
+
+# ------------------------------------------------------------------ mpn_neg_n (mpir.h inline, forced out of line by mpn/generic/neg_n.c)
+UNITS.append(dict(
+    name='mpn_neg_n', props=['C03', 'C05', 'C04', 'C15'], source='mpn/generic/neg_n.c', contracts=['mpn.h'],
+    enforce=['__gmpn_neg_n'], replace=['__gmpn_com_n'],
+    # '- *(mp_limb_signed_t*)up' is signed negation: for the limb 0x8000...0 that is formally a signed overflow;
+    # gcc compiles it to a wrapping 'neg'.  Not one of the listed properties; the check is switched off for this unit only.
+    drop_checks=['--signed-overflow-check'], cbmc_flags=['--no-signed-overflow-check'],
+    assumptions=['mpn_neg_n: signed negation of a limb wraps (gcc semantics)'],
+    functions={'__gmpn_neg_n': dict(
+        entry='mp_size_t V_n0 = __gmp_n; mp_ptr V_rp0 = __gmp_rp; mp_srcptr V_up0 = __gmp_up; mp_limb_t V_u = __gmp_up[gk]; g_ci = 0; g_co = 0;',
+        inserts=[(r'__gmpn_com_n \(', r'gkc = (gk >= V_n0 - __gmp_n ? gk - (V_n0 - __gmp_n) : 0), \g<0>')],
+        loops={0: dict(scalars=['__gmp_n', 'g_ci', 'g_co'], havoc_targets=['__gmp_up', '__gmp_rp'],
+                       havoc='{ __CPROVER_assume (1 <= __gmp_n && __gmp_n <= V_n0); __gmp_up = V_up0 + (V_n0 - __gmp_n); __gmp_rp = V_rp0 + (V_n0 - __gmp_n); }',
+                       slices=[('V_rp0', 'V_n0 * 8')],
+                       inv='''(1 <= __gmp_n && __gmp_n <= V_n0 && __gmp_up == V_up0 + (V_n0 - __gmp_n) && __gmp_rp == V_rp0 + (V_n0 - __gmp_n)
+                           && (gk >= V_n0 - __gmp_n ==> V_up0[gk] == V_u)
+                           && (gk < V_n0 - __gmp_n ==> (V_u == 0 && V_rp0[gk] == 0 && g_ci == 0 && g_co == 0)))''',
+                       dec='__gmp_n',
+                       begin='if (V_n0 - __gmp_n == gk) { g_ci = 0; g_co = 0; }',
+                       after='if (gk == V_n0 - __gmp_n) { g_ci = 0; g_co = 1; } if (gk > V_n0 - __gmp_n) { g_ci = 1; g_co = 1; }')})},
+    harness=mpn_harness('mpn_neg_n', '__gmpn_neg_n (rp, up, n);', ptrs=('rp', 'up')),
+    selftest=[('__gmpn_neg_n', r'\+\+__gmp_rp, \+\+__gmp_up, __gmp_n\)', '++__gmp_rp, ++__gmp_up, __gmp_n - 1)'),
+              ('__gmpn_neg_n', r'\*__gmp_rp = 0;', '*__gmp_rp = 1;')],
+))
